@@ -162,6 +162,28 @@ struct Global {
 unsafe impl Sync for Global {}
 static G: Global = Global { lock: AtomicBool::new(false), st: UnsafeCell::new(None) };
 
+/// Optional hook called *after* a tracked allocation has been made (outside the allocator's
+/// own critical section): E-sched turns tracked allocations into scheduling points, because
+/// a real allocator call is a place where a thread can be delayed arbitrarily long.
+static ALLOC_HOOK: AtomicUsize = AtomicUsize::new(0);
+pub fn set_alloc_hook(f: Option<fn()>) {
+    ALLOC_HOOK.store(f.map(|f| f as usize).unwrap_or(0), Ordering::SeqCst);
+}
+#[inline]
+fn run_alloc_hook() {
+    let h = ALLOC_HOOK.load(Ordering::Relaxed);
+    if h != 0 && !std::thread::panicking() {
+        let f: fn() = unsafe { std::mem::transmute(h) };
+        f();
+    }
+}
+
+/// Optional observer called (inside the hook) when a tracked block has been allocated.
+static ALLOC_OBSERVER: AtomicUsize = AtomicUsize::new(0);
+pub fn set_alloc_observer(f: Option<fn(BlockInfo)>) {
+    ALLOC_OBSERVER.store(f.map(|f| f as usize).unwrap_or(0), Ordering::SeqCst);
+}
+
 /// Optional observer called (inside the hook, TRACK off) when a tracked block is freed.
 static DEALLOC_OBSERVER: AtomicUsize = AtomicUsize::new(0);
 pub fn set_dealloc_observer(f: Option<fn(BlockInfo)>) {
@@ -503,6 +525,11 @@ impl State {
         if self.record_events {
             self.events.push(Event { kind: EvKind::Alloc, align, size, id });
         }
+        let obs = ALLOC_OBSERVER.load(Ordering::SeqCst);
+        if obs != 0 {
+            let f: fn(BlockInfo) = std::mem::transmute(obs);
+            f(BlockInfo { id, user: user as usize, size, align, live: true, born_op: self.op_uid });
+        }
         user
     }
 
@@ -610,8 +637,8 @@ unsafe impl GlobalAlloc for SimAlloc {
         if !TRACK.with(|c| c.get()) {
             return System.alloc(layout);
         }
-        match HookGuard::enter() {
-            None => System.alloc(layout),
+        let p = match HookGuard::enter() {
+            None => return System.alloc(layout),
             Some(_g) => {
                 let st = &mut *G.st.get();
                 match st.as_mut() {
@@ -619,7 +646,9 @@ unsafe impl GlobalAlloc for SimAlloc {
                     Some(s) => s.new_block(layout),
                 }
             }
-        }
+        };
+        run_alloc_hook();
+        p
     }
 
     unsafe fn dealloc(&self, ptr: *mut u8, layout: Layout) {
